@@ -299,3 +299,26 @@ pub fn subject_describe() -> String {
     let out = std::process::Command::new("git").args(["-C", "/repo", "describe", "--always", "--dirty"]).output();
     out.ok().map(|o| String::from_utf8_lossy(&o.stdout).trim().to_string()).unwrap_or_default()
 }
+
+/// thorough tier: cross-checks the `xs` explorer's state count with stateright's BFS over the same system
+/// (the `vsr` binary); a disagreement is a machinery error, never a verdict
+pub fn second_engine(run: &mut Run, prop: &str, depth: usize) {
+    let vsr = verif_root().join("harness").join("target").join("release").join("vsr");
+    if !vsr.exists() {
+        run.set("second_engine", serde_json::json!("vsr binary not built (bin/check builds it for the thorough tier)"));
+        return;
+    }
+    match std::process::Command::new(&vsr).arg(prop).arg(depth.to_string()).output() {
+        Ok(o) if o.status.success() => match serde_json::from_slice::<Value>(&o.stdout) {
+            Ok(v) => {
+                if v["agree"].as_bool() != Some(true) {
+                    run.machinery(format!("the two engines disagree: {}", v));
+                }
+                run.set("second_engine", v);
+            }
+            Err(e) => run.machinery(format!("vsr printed no JSON: {}", e)),
+        },
+        Ok(o) => run.machinery(format!("vsr failed: {}", String::from_utf8_lossy(&o.stderr).lines().last().unwrap_or(""))),
+        Err(e) => run.machinery(format!("cannot run vsr: {}", e)),
+    }
+}
